@@ -43,6 +43,7 @@ _N = 0
 
 class C04(Prop):
     id = "C04"
+    noise_sample = 300
     gen_module = "FsDataGen"
     judge_module = "FsDataJudge"
     assumptions = [
